@@ -622,6 +622,11 @@ theorem C11_compact_only_span_lists :
     (∀ (n c : Nat) (t : Str), matchAt (c :: t) = none → compactF (n + 1) (c :: t) = c :: compactF n t) :=
   ⟨fun t => noWs_compactF _ t, lex_compact, fun n c t h => by simp [compactF, h]⟩
 
+/-- The scanner is well defined: a match consumes at least one character, so the fuel `t.length` of `compact` is never
+exhausted — any larger fuel gives the same text. -/
+theorem C11_compact_fuel (n : Nat) (t : Str) (h : t.length ≤ n) : compactF n t = compact t :=
+  compactF_eq_compact n t h
+
 /-- **Compaction preserves the parsed value**, for every text that parses. -/
 theorem C11_compact_preserves_loads (t : Str) (v : J) (h : loads t = some v) : loads (compact t) = some v :=
   loads_compact t v h
